@@ -595,7 +595,7 @@ func oracleC10nsx(c *Case) Verdict {
 }
 
 func init() {
-	register("C04", "nsx", oracleC04nsx)
+	register("C04", "nsx", withRefusal(oracleC04nsx, oracleC08nsx))
 	register("C08", "nsx", oracleC08nsx)
 	register("C10", "nsx", oracleC10nsx)
 	register("C16", "nsx", oracleC16)
